@@ -14,7 +14,7 @@ EXPLANATION = ("Bounded symbolic execution of the MIR of SortMetric::metric / po
                "one-to-one assignment.")
 ASSUMPTIONS = ["kuhn_munkres returns a maximum-weight assignment (contract of the pathfinding crate; a bug inside it is outside the claim)",
                "stream of <= 3 results (quick) / <= 4 (thorough) over <= 2 candidates x <= 2 tracks (thorough 3x2 / 2x3); candidate and track ids disjoint, > 0",
-               "weights: attribute_metric from the grid {0, .1, .25, .3, .35, .5, .7, .9} selected by a symbolic index (the i64 conversion x10^6 is executed and constant-folded per grid value); threshold any i64 in (0, 10^9]",
+               "weights: attribute_metric from the grid {0, .125, .25, .3125, .375, .5, .75, .875} selected by a symbolic index (the i64 conversion x10^6 is executed and constant-folded per grid value); threshold any i64 in (0, 10^9]",
                "track_num >= number of distinct tracks in the stream; candidate_num >= distinct candidates"]
 OUTSIDE = ["the IoU / Mahalanobis numbers themselves (C07, C08)", "larger matrices", "whole tracker histories"]
 
@@ -181,17 +181,13 @@ def _replay_gate(cex, v, vm):
 
 # ------------------------------------------------------------------ assignment
 F32_MULT = 1000000.0
-GRID = [0.0, 0.1, 0.25, 0.3, 0.35, 0.5, 0.7, 0.9]
+GRID = [0.0, 0.125, 0.25, 0.3125, 0.375, 0.5, 0.75, 0.875]
 
 
 def grid_weight(vm, name):
-    """a weight from the grid straddling typical thresholds, selected by a symbolic 3-bit index"""
-    sel = vm.fresh(3, name + '_sel')
-    e = f32(GRID[-1])
-    for i in reversed(range(len(GRID) - 1)):
-        e = z3.If(sel.e == i, f32(GRID[i]), e)
-    vm.notes.setdefault('grid', {})[name] = sel
-    return e
+    """a weight from the exact grid straddling typical thresholds, selected by a symbolic index (FSet: all float
+    arithmetic on it - the x10^6 scaling and the i64 conversion - is folded exactly per grid value)"""
+    return grid_f32(vm, name, GRID)
 
 
 def _mk_assignment(ncand, ntrk, nres, extra_tracks=0):
@@ -207,14 +203,18 @@ def _mk_assignment(ncand, ntrk, nres, extra_tracks=0):
         thr = vm.fresh(64, 'threshold', signed=True)
         vm.assume(z3.And(thr.e > 0, thr.e <= 1000 * 1000000))
         stream = []
+        pairs = []
         for k in range(nres):
-            f = vm.fresh(64, 'from%d' % k)
-            t = vm.fresh(64, 'to%d' % k)
-            vm.assume(z3.Or([f.e == c.e for c in cids]))
-            vm.assume(z3.Or([t.e == x.e for x in tids]))
+            # which candidate / track an entry refers to is a path choice (all combinations are explored); the id
+            # VALUES stay symbolic
+            fi = vm.choose_n(ncand, "from")
+            ti = vm.choose_n(ntrk, "to")
+            f, t = cids[fi], tids[ti]
+            pairs.append((fi, ti))
             w = grid_weight(vm, 'w%d' % k)
             some = vm.choose_n(2, "weight present") == 0
             stream.append((f, t, w if some else None))
+        vm.notes['pairs'] = pairs
         items = [mk(P, 'ObservationMetricOk', **{'from': f, 'to': t, 'attribute_metric': SOME(w) if w is not None else NONE, 'feature_distance': NONE})
                  for f, t, w in stream]
         voting = Cell(mk(P, 'SortVoting', threshold=thr, candidate_num=usize(ncand), track_num=usize(ntrk + extra_tracks)), 'voting')
@@ -224,17 +224,18 @@ def _mk_assignment(ncand, ntrk, nres, extra_tracks=0):
         def conv(w):
             if w is None:
                 return z3.BitVecVal(0, 64)
-            return vm.cast(z3.fpMul(RNE, w, f32(F32_MULT)), 'i64', 'FloatToInt').e
+            return vm.cast(f_mul(w, f32(F32_MULT)), 'i64', 'FloatToInt').e
 
         def W(c, t):
             """weight of pair (c, t): the last entry of the stream for that pair, 0 if none"""
             e = z3.BitVecVal(0, 64)
             for f, to, w in stream:
-                e = z3.If(z3.And(f.e == c.e, to.e == t.e), conv(w), e)
+                if f is c and to is t:
+                    e = conv(w)
             return e
 
         def in_stream(c):
-            return z3.Or([f.e == c.e for f, _, _ in stream] + [z3.BoolVal(False)])
+            return z3.BoolVal(any(f is c for f, _, _ in stream))
         res = {}
         for k, v in r.items:
             res[k] = v
@@ -299,11 +300,11 @@ def _replay_assignment(cex, v, vm):
     for k in range(n['nres']):
         w = None
         try:
-            w = GRID[g('w%d_sel' % k)]
+            w = grid_value(cex, vm, 'w%d' % k)
         except KeyError:
             pass
         items.append("ObservationMetricOk { from: %du64, to: %du64, attribute_metric: %s, feature_distance: None }" % (
-            g('from%d' % k), g('to%d' % k), ("Some(%s)" % rust_f32(w)) if w is not None else "None"))
+            g('cand%d' % n['pairs'][k][0]), g('track%d' % n['pairs'][k][1]), ("Some(%s)" % rust_f32(w)) if w is not None else "None"))
     thr = g('threshold')
     return '''
 use similari::track::ObservationMetricOk;
